@@ -15,6 +15,10 @@ pub enum Variant {
     ResplitRefRef,
     /// by_ref first, then by_rc
     ResplitRefRc,
+    /// by_rc; after `split_at` pulls branch A is dropped and the remaining choices all go to B
+    RcDropA,
+    /// by_rc; after `split_at` pulls branch B is dropped and the remaining choices all go to A
+    RcDropB,
 }
 
 #[derive(Clone, Debug, Serialize, Deserialize)]
@@ -144,6 +148,36 @@ fn run_fork<F: Coded, D: SliceMut<Element = F>>(rb: Bounded<D>, c: &Case, st: &m
             let (mut a, mut b) = fork.by_rc();
             run_steps::<F>(&mut a, &mut b, &c.choices[split..], &mut s, &counters, split)?;
         }
+        Variant::RcDropA | Variant::RcDropB => {
+            let (mut a, mut b) = fork.by_rc();
+            run_steps::<F>(&mut a, &mut b, &c.choices[..split], &mut s, &counters, 0)?;
+            let rest = c.choices.len() - split;
+            // the surviving branch must still see every source frame in order: first what is queued for it, then fresh frames
+            if c.variant == Variant::RcDropA {
+                drop(a);
+                st.class_if(s.pb < s.pa, "by_rc branch dropped while the other still has pending frames");
+                for j in 0..rest {
+                    let g = b.next();
+                    ensure!(g.decode() == Some(s.pb), "after branch A was dropped, B's pull #{} returned {:?} (frame {:?}), expected source frame {}", s.pb, g, g.decode(), s.pb);
+                    s.pb += 1;
+                    ensure!(counters.pulls() == s.pa.max(s.pb), "after branch A was dropped (step {}): source pulled {} times, expected {}", j, counters.pulls(), s.pa.max(s.pb));
+                    ensure!(b.pending_frames() as u64 == s.pa.saturating_sub(s.pb), "after branch A was dropped: B.pending_frames() = {}, lag {}", b.pending_frames(), s.pa.saturating_sub(s.pb));
+                }
+            } else {
+                drop(b);
+                st.class_if(s.pa < s.pb, "by_rc branch dropped while the other still has pending frames");
+                for j in 0..rest {
+                    let g = a.next();
+                    ensure!(g.decode() == Some(s.pa), "after branch B was dropped, A's pull #{} returned {:?} (frame {:?}), expected source frame {}", s.pa, g, g.decode(), s.pa);
+                    s.pa += 1;
+                    ensure!(counters.pulls() == s.pa.max(s.pb), "after branch B was dropped (step {}): source pulled {} times, expected {}", j, counters.pulls(), s.pa.max(s.pb));
+                    ensure!(a.pending_frames() as u64 == s.pb.saturating_sub(s.pa), "after branch B was dropped: A.pending_frames() = {}, lag {}", a.pending_frames(), s.pb.saturating_sub(s.pa));
+                }
+            }
+        }
+    }
+    if let Variant::RcDropA | Variant::RcDropB = c.variant {
+        // handled below (needs ownership of the branches)
     }
     let resplit = matches!(c.variant, Variant::ResplitRefRef | Variant::ResplitRefRc);
     st.nt(s.sign_flips > 0 || s.hit_cap || c.cap == 1 || resplit);
@@ -226,7 +260,7 @@ fn valid_schedules(cap: usize, len: usize) -> Vec<Vec<bool>> {
 
 pub fn case_strategy(max_cap: usize, max_len: usize) -> impl Strategy<Value = Case> {
     let cap = prop_oneof![3 => 1usize..=3, 2 => proptest::sample::select(vec![1usize, 2, 3, 4, 5, 8, 16]), 2 => 1usize..=max_cap];
-    (cap, any::<bool>(), any::<bool>(), 0usize..4, 0usize..max_len).prop_flat_map(move |(cap, arr, int, v, len)| {
+    (cap, any::<bool>(), any::<bool>(), 0usize..6, 0usize..max_len).prop_flat_map(move |(cap, arr, int, v, len)| {
         // runs: biased toward long runs of one branch (reaching the capacity) and sign flips
         let runs = proptest::collection::vec((any::<bool>(), 1usize..=(2 * cap + 2)), 0..(len / 2 + 1));
         (runs, 0usize..(len + 1)).prop_map(move |(runs, split_at)| {
@@ -241,7 +275,7 @@ pub fn case_strategy(max_cap: usize, max_len: usize) -> impl Strategy<Value = Ca
                 cap,
                 array_storage: arr,
                 int_frames: int,
-                variant: [Variant::ByRef, Variant::ByRc, Variant::ResplitRefRef, Variant::ResplitRefRc][v],
+                variant: [Variant::ByRef, Variant::ByRc, Variant::ResplitRefRef, Variant::ResplitRefRc, Variant::RcDropA, Variant::RcDropB][v],
                 choices,
                 split_at,
             }
@@ -297,6 +331,22 @@ pub fn run(ctx: &mut Ctx) {
     }
     let n = cases.len() as u64;
     ctx.par_enumerate("all-valid-schedules-resplit", true, n, move |i| cases[i as usize].clone(), check);
+    // every valid schedule up to length 8 x every point at which one by_rc branch is dropped, then 4 more pulls of the survivor
+    ctx.require_class("by_rc branch dropped while the other still has pending frames");
+    let mut cases = Vec::new();
+    for cap in 1..=3usize {
+        for len in 0..=8usize {
+            for s in valid_schedules(cap, len) {
+                for variant in [Variant::RcDropA, Variant::RcDropB] {
+                    let mut choices = s.clone();
+                    choices.extend([true; 4]);
+                    cases.push(Case { cap, array_storage: len % 2 == 0, int_frames: false, variant, choices, split_at: len });
+                }
+            }
+        }
+    }
+    let n = cases.len() as u64;
+    ctx.par_enumerate("all-valid-schedules-rc-drop", true, n, move |i| cases[i as usize].clone(), check);
     ctx.prop("random-schedules", ctx.pick(20_000, 300_000), case_strategy(64, 400), check);
     let mut cases = Vec::new();
     for cap in 1..=6 {
